@@ -41,6 +41,12 @@ def domain(g, dom, k):
     from y0.graph import NxMixedGraph
 
     z = set(dom["z"])
+    if dom.get("star"):
+        # declared with the target's own population tag: same graph, the policy variables keep their parents
+        from y0.dsl import TARGET_DOMAIN
+        graph = build_graph(g)
+        return CFTDomain(graph=graph, population=TARGET_DOMAIN, policy_variables={var(i) for i in z},
+                         ordering=list(graph.topological_sort()))
     d = [(u, v) for u, v in g["d"] if v not in z]
     b = [(u, v) for u, v in g["b"] if u not in z and v not in z]
     order = [var(i) for i in nx.topological_sort(nx.DiGraph([(u, v) for u, v in d]))] if d else []
@@ -59,6 +65,13 @@ def domain(g, dom, k):
     return CFTDomain(graph=graph, population=pop_var(k), policy_variables={var(i) for i in z}, ordering=order)
 
 
+POPMAP = {}
+
+
+def popfn(p):
+    return POPMAP[p.name] if p.name in POPMAP else pop_num(p)
+
+
 def outcome(res, kind):
     from y0.dsl import Zero
 
@@ -68,7 +81,7 @@ def outcome(res, kind):
     if isinstance(e, Zero):
         return {"k": "zero"}
     try:
-        return {"k": "expr", "e": ser_expr(e, pop=pop_num), "ev": ser_ev(ev), "str": (str(e) + " ; " + str(ev))[:500]}
+        return {"k": "expr", "e": ser_expr(e, pop=popfn), "ev": ser_ev(ev), "str": (str(e) + " ; " + str(ev))[:500]}
     except Exception as exc:  # noqa: BLE001
         return {"k": "expr", "unser": f"{exc_class(exc)}: {exc}"[:200], "str": str(e)[:300]}
 
@@ -82,6 +95,8 @@ def main():
         recs = []
         graph = build_graph(g)
         doms = [domain(g, dm, k + 1) for k, dm in enumerate(item["cdoms"])]
+        POPMAP.clear()
+        POPMAP.update({"pi*": k + 1 for k, dm in enumerate(item["cdoms"]) if dm.get("star")})
         dg = [(dm.graph, dm.ordering) for dm in doms]
         dd = [(dm.policy_variables, dm.population) for dm in doms]
         for ei, ev in enumerate(item["evs"]):
